@@ -216,11 +216,15 @@ CLAIMS = {
               "caching off and on, with the model (sequences) and the ripple-down-rule interpreter (multisets); 40 % of the programs are "
               "GROWN: the base block is written in several `with rule_mode(query)` blocks with an evaluation of the rule in between "
               "(C12_grown_alternatives: alternatives attached at the conditions root after re-entering build the tree a single block builds); "
+              "a quarter of the programs are followed by 1-3 LATER SESSIONS, one statement each (C12_grown_sessions, proved for every base "
+              "program and every sequence of later statements with blocks of any shape: a refinement written after re-entering is "
+              "ExceptIf(the whole tree, the refinement) - it replaces whatever conclusion the tree selected where it applies -, an "
+              "alternative applies where nothing was selected); "
               "30 % of the programs have TWO rule variables (a match is an assignment: attributes of either variable and a join; every "
               "branch mentions both variables or the base rule starts with the join), 40 % are evaluated after an evaluation that was "
               "abandoned after 1-12 results."),
         design='7/C12 + 12.8', technique='Coq proof (builder correctness by mutual induction with one-hole contexts; evaluation = RDR by mutual induction) + translator-extracted linking flags + structural and result correspondence',
-        note=BASE_NOTE + " The model decides a branch per MATCH (an item, or an assignment of two rule variables whose every conclusion variable is bound by the branch that fires); a refinement that introduces a further rule variable, and next_rule, are outside the model. Re-entering `with rule_mode(query)` attaches at the conditions root: grown programs are generated only where that is the same program (the root is still the base rule, or only alternatives follow). The evaluation model (fire) abstracts ExceptIf/Alternative._evaluate__ for a bound item; it is tied by the row correspondence. Four defects were repaired in /repo (see known_findings.json)."),
+        note=BASE_NOTE + " The model decides a branch per MATCH (an item, or an assignment of two rule variables whose every conclusion variable is bound by the branch that fires); a refinement that introduces a further rule variable, and next_rule, are outside the model. Re-entering `with rule_mode(query)` attaches at the conditions root: a session that re-enters with SEVERAL top-level statements is generated only where that is the same program as one block (the root is still the base rule, or only alternatives follow); sessions of one statement are modelled in full (grow / sel_grown). The evaluation model (fire) abstracts ExceptIf/Alternative._evaluate__ for a bound item; it is tied by the row correspondence. Four defects were repaired in /repo (see known_findings.json)."),
     'C11': dict(
         text=("Machine-checked over the P-model, for every rule head (constructor arguments = rule variables, attribute chains, indexes, "
               "calls, constants) and every body the user can write, any number of rule variables, heap and duplicate-free domains: "
